@@ -8,6 +8,8 @@ import (
 	"strings"
 	"time"
 
+	"github.com/ProtonMail/gluon/imap"
+
 	"verifharness/ev"
 	"verifharness/imapc"
 	"verifharness/srv"
@@ -454,7 +456,7 @@ func genC15Key(rng *rand.Rand, depth int, all []*c15Msg) *c15Key {
 // ---- the check ---------------------------------------------------------------------------
 
 func runC15(r *ev.Run) {
-	r.SetRule("mailboxes of 0-14 generated messages whose flags, size, internal date, Date header, address/subject/X-Tag headers (present, absent, empty, folded) and body words are known by construction; the session's view (sequence numbers, UIDs, flags incl. \\Recent, RFC822.SIZE, INTERNALDATE) is read with FETCH, also after another session changed flags, expunged or appended and the observer was told (NOOP). Random key expressions (all RFC 3501 keys; NOT/OR/parenthesised lists to depth 3; 1-3 juxtaposed keys; optional CHARSET) are evaluated by the harness over that view and compared with SEARCH (exact ascending list, no duplicates) and UID SEARCH (the UIDs of the same messages); metamorphic relations NOT k = ALL minus k, OR a b = a union b, (a b) = a intersect b are checked on the server's own answers. distinct = distinct expression shapes x result-size classes")
+	r.SetRule("mailboxes of 0-14 generated messages whose flags, size, internal date, Date header, address/subject/X-Tag headers (present, absent, empty, folded) and body words are known by construction; the session's view (sequence numbers, UIDs, flags incl. \\Recent, RFC822.SIZE, INTERNALDATE) is read with FETCH, also after another session changed flags, expunged or appended and the observer was told (NOOP), and while a message that another session expunged or the connector deleted is still in the observer's view because it has not been told. Random key expressions (all RFC 3501 keys; NOT/OR/parenthesised lists to depth 3; 1-3 juxtaposed keys; optional CHARSET) are evaluated by the harness over that view and compared with SEARCH (exact ascending list, no duplicates) and UID SEARCH (the UIDs of the same messages); metamorphic relations NOT k = ALL minus k, OR a b = a union b, (a b) = a intersect b are checked on the server's own answers. distinct = distinct expression shapes x result-size classes")
 	r.Assume("internal dates are given in UTC and SENT* keys compare the date of the Date header as written; the X-Pm-Gluon-Id line the server adds is never searched for")
 
 	boxes := r.Pick(120, 1500)
@@ -710,6 +712,32 @@ func c15Box(r *ev.Run, label string, queries int) {
 			if !c.readView() {
 				return
 			}
+		} else if q > 0 && rng.Intn(15) == 0 && len(c.msgs) > 1 {
+			// A message disappears elsewhere and the observer is NOT told: it stays in the observer's
+			// view (SEARCH must not announce the removal) and must still be searchable there.
+			victim := c.msgs[rng.Intn(len(c.msgs))]
+
+			// (the other session only expunges a message that already carries \Deleted in the observer's
+			// view: whether a flag change the observer has not been told of belongs to its view is not
+			// something this check wants to decide)
+			if !victim.VFlags[`\deleted`] || rng.Intn(2) == 0 {
+				if mi, ok := s.Users[0].Conn.FindMessage(markerHeader + ": " + victim.Marker + "\r\n"); ok {
+					s.Users[0].Conn.RemoteDeleteMessage(mi.ID)
+					ack := s.Users[0].Conn.Apply(imap.NewMessagesDeleted(mi.ID), srv.UpdateTimeout)
+					c.logf("the connector deleted %s (message %d of the view) -> %v; the observer is not told", victim.Marker, victim.Seq, ack.Err)
+				}
+			} else {
+				setup.Cmd("SELECT INBOX")
+				setup.Cmdf("UID EXPUNGE %d", victim.UID)
+				setup.Cmd("UNSELECT")
+				c.logf("another session expunged %s (message %d of the view); the observer is not told", victim.Marker, victim.Seq)
+			}
+
+			if !mustQuiesce(r, s, 0, label) {
+				return
+			}
+
+			r.Count("queries_on_a_view_with_an_unannounced_removal", 1)
 		}
 
 		nKeys := 1 + rng.Intn(3)
